@@ -525,3 +525,79 @@ def ovec_random(rng, n, maxops=60, lagbias=False):
                 ops.append("drain(%d)" % k)
         cases.append("cap=%d :: %s" % (cap, " ; ".join(ops)))
     return cases
+
+
+# ---------------------------------------------------------------- observable value (mode obs)
+OBS_REDUCED = ["set(11)", "set_if_not_eq(1)", "set_if_not_eq(10)", "set_if_hash_not_eq(1)", "set_if_hash_not_eq(10)",
+               "update_if(11,0)", "update_if(11,1)", "take", "subscribe", "subscribe_reset", "poll(0)", "poll(1)",
+               "next_now(0)", "reset(0)", "sclone(0)", "sdrop(0)", "clone", "drop_owner", "downgrade", "upgrade",
+               "counts", "into_shared"]
+
+
+def obs_exhaustive(maxlen, heads=("unique", "shared", "guard"), prefixes=("", "subscribe ; poll(0) ; ")):
+    cases = []
+    for head in heads:
+        for pre in prefixes:
+            for n in range(1, maxlen + 1):
+                for seq in itertools.product(OBS_REDUCED, repeat=n):
+                    cases.append("%s :: %s%s ; poll(0) ; counts" % (head, pre, " ; ".join(seq)))
+    return cases
+
+
+def obs_random(rng, n, heads=("unique", "shared", "guard"), minlen=10, maxlen=40):
+    cases = []
+    vals = (0, 1, 10, 11, 12, 21, 22, 35)
+    for _ in range(n):
+        head = rng.choice(heads)
+        shared = head != "unique"
+        owners, weaks = 1, 0
+        subs = []   # live flags
+        ops = []
+        for _ in range(rng.randrange(minlen, maxlen)):
+            r = rng.random()
+            v = rng.choice(vals)
+            live = [k for k, l in enumerate(subs) if l]
+            if r < 0.3:
+                ops.append(rng.choice(("set(%d)" % v, "set_if_not_eq(%d)" % v, "set_if_hash_not_eq(%d)" % v, "take",
+                                       "update(%d)" % v, "update_if(%d,%d)" % (v, rng.randrange(2)), "get")))
+            elif r < 0.4:
+                ops.append(rng.choice(("subscribe", "subscribe_reset")))
+                if owners > 0:
+                    subs.append(True)
+            elif r < 0.75 and (live or rng.random() < 0.1):
+                k = rng.choice(live) if live and rng.random() < 0.95 else rng.randrange(len(subs) + 1)
+                o = rng.choice(("poll", "poll", "poll", "next_now", "sget", "sread", "reset", "sclone", "sclone_reset", "sdrop"))
+                ops.append("%s(%d)" % (o, k))
+                if k < len(subs) and subs[k]:
+                    if o in ("sclone", "sclone_reset"):
+                        subs.append(True)
+                    if o == "sdrop":
+                        subs[k] = False
+            elif r < 0.97:
+                o = rng.choice(("clone", "drop_owner", "downgrade", "upgrade", "drop_weak", "into_shared", "counts", "counts"))
+                if o == "drop_owner" and owners == 1 and rng.random() < 0.6:
+                    o = "counts"       # keep most histories alive for a while
+                ops.append(o)
+                if o == "clone" and shared and owners > 0:
+                    owners += 1
+                elif o == "drop_owner" and owners > 0:
+                    owners -= 1
+                elif o == "downgrade" and shared and owners > 0:
+                    weaks += 1
+                elif o == "upgrade" and weaks > 0 and owners > 0:
+                    owners += 1
+                elif o == "drop_weak" and weaks > 0:
+                    weaks -= 1
+                elif o == "into_shared" and not shared and owners > 0:
+                    shared = True
+            else:
+                ops.append("counts")
+        # final: drop all owners, poll everyone
+        for _ in range(owners):
+            ops.append("drop_owner")
+        for k, l in enumerate(subs):
+            if l:
+                ops.append("poll(%d)" % k)
+                ops.append("sget(%d)" % k)
+        cases.append("%s :: %s" % (head, " ; ".join(ops)))
+    return cases
